@@ -8,7 +8,8 @@
     Every other stream goes to the glue check (Pipe/PipelineCheck.v).  Executable only. *)
 From Coq Require Import List NArith ZArith Bool String Ascii.
 From ApiFu Require Import Base.Sexp Pipe.PipelineModel Pipe.PipelineCheck Pipe.Convert Pipe.Compose Pipe.SchemaAgree.
-From ApiFu Require Syn.Ast Syn.ParserModel Syn.FrontEnd Vld.Ast Vld.Inspect Vld.TypeInfoModel Vld.ValidatorModel Vld.Decode Vld.ValidatorCheck Exe.ExecData Exe.ExecModel Exe.ExecHyps Exe.ExecDecode Exe.ExecCheck.
+From ApiFu Require Val.Values Val.CoerceSpec.
+From ApiFu Require Syn.Ast Syn.ParserModel Syn.FrontEnd Vld.Ast Vld.Inspect Vld.TypeInfoModel Vld.ValidatorModel Vld.Decode Vld.ValidatorCheck ExeA.ArgData ExeA.ArgModel ExeA.ArgHyps ExeA.ArgDecode ExeA.ArgCheck.
 Import ListNotations.
 Open Scope string_scope.
 
@@ -19,7 +20,7 @@ Inductive seen :=
 | SeenNone
 | SeenSyntax (errs : list (list Vld.Ast.pos))
 | SeenInvalid (errs : list (list Vld.Ast.pos))
-| SeenExecuted (o : Exe.ExecDecode.observed).
+| SeenExecuted (o : ExeA.ArgDecode.observed).
 
 Definition dec_seen (s : sexp) : option seen :=
   match untag s with
@@ -28,19 +29,10 @@ Definition dec_seen (s : sexp) : option seen :=
       else if String.eqb t "syntax" then option_map SeenSyntax (map_opt dec_loc_list args)
       else if String.eqb t "invalid" then option_map SeenInvalid (map_opt dec_loc_list args)
       else if String.eqb t "executed" then
-        match args with [o] => option_map SeenExecuted (Exe.ExecDecode.dec_obs o) | _ => None end
+        match args with [o] => option_map SeenExecuted (ExeA.ArgDecode.dec_obs o) | _ => None end
       else None
   | None => None
   end.
-
-(** [Some None]: coercion failed; [Some (Some E)]: the coerced variables; "none": not reached *)
-Definition dec_coerced (s : sexp) : option (option Exe.ExecData.env) :=
-  if is_sym "none" s then Some (Some [])
-  else if is_sym "rejected" s then Some None
-  else match untag s with
-       | Some (t, [e]) => if String.eqb t "ok" then option_map Some (Exe.ExecDecode.dec_env e) else None
-       | _ => None
-       end.
 
 (** ** comparison *)
 Definition syn_locs (es : list Syn.Ast.pos) : list Vld.Ast.pos := map vpos es.
@@ -54,9 +46,8 @@ Definition of_presult (r : presult) : sexp :=
   match r with
   | PSyntax e es => tag "syntax" (map of_vpos (syn_locs (e :: es)))
   | PInvalid e es => tag "invalid" (map (fun x => SL (map of_vpos (Vld.Ast.e_locs x))) (e :: es))
-  | PExecuted d errs => tag "executed" [Exe.ExecCheck.of_run (Exe.ExecModel.Done d errs)]
-  | PVarsRejected => tag "variables-rejected" []
-  | PUnevaluable x => tag "unevaluable" [Exe.ExecCheck.of_run x]
+  | PExecuted d errs => tag "executed" [ExeA.ArgCheck.of_run (ExeA.ArgModel.Done d errs)]
+  | PUnevaluable x => tag "unevaluable" [ExeA.ArgCheck.of_run x]
   | PContractBroken CPositions => tag "contract-broken" [SSym "positions"]
   | PContractBroken CDocOk => tag "contract-broken" [SSym "doc-ok"]
   | PPanic _ => tag "panic" []
@@ -79,12 +70,12 @@ Definition locations_stable (VS : Vld.Ast.schema) (F : Vld.Ast.features) (bs : b
   | _ => true
   end.
 
-Definition has_errors (o : Exe.ExecDecode.observed) : bool :=
-  match o with Exe.ExecDecode.ObsDone _ (_ :: _) => true | _ => false end.
+Definition has_errors (o : ExeA.ArgDecode.observed) : bool :=
+  match o with ExeA.ArgDecode.ObsDone _ (_ :: _) => true | _ => false end.
 
-Definition judge_composed (kind : string) (VS : Vld.Ast.schema) (F : Vld.Ast.features) (ES : Exe.ExecData.schema)
-           (bs : bytes) (opname : bytes) (VE : option Exe.ExecData.env) (W : Exe.ExecData.outcome) (obs : seen) : sexp :=
-  let m := pipeline_model VS F ES bs opname VE W in
+Definition judge_composed (kind : string) (VS : Vld.Ast.schema) (F : Vld.Ast.features) (ES : ExeA.ArgData.schema)
+           (bs : bytes) (opname : bytes) (raw : list (ExeA.ArgData.name * Val.Values.jval)) (W : ExeA.ArgData.outcome) (obs : seen) : sexp :=
+  let m := pipeline_model VS F ES bs opname raw W in
   let mism (what : string) := v_mismatch what [of_presult m] in
   let cls (l : list string) := v_ok (["composed"; String.append "composed-" kind] ++ l) in
   match m with
@@ -111,15 +102,10 @@ Definition judge_composed (kind : string) (VS : Vld.Ast.schema) (F : Vld.Ast.fea
           else mism "composed-validation-locations"
       | _ => mism "composed-class"
       end
-  | PVarsRejected =>
-      match obs with
-      | SeenExecuted (Exe.ExecDecode.ObsDone None [_]) => cls ["composed-variables-rejected"; "nontrivial"]
-      | _ => mism "composed-class"
-      end
   | PExecuted d errs =>
       match obs with
       | SeenExecuted o =>
-          if Exe.ExecCheck.agrees (Exe.ExecModel.Done d errs) o then
+          if ExeA.ArgCheck.agrees (ExeA.ArgModel.Done d errs) o then
             cls ((match d with Some _ => "composed-executed-data" | None => "composed-executed-null-data" end)
                  :: (if has_errors o then ["composed-execution-errors"] else []) ++ ["nontrivial"])
           else mism "composed-response"
@@ -128,7 +114,7 @@ Definition judge_composed (kind : string) (VS : Vld.Ast.schema) (F : Vld.Ast.fea
   | PUnevaluable x =>
       match obs with
       | SeenExecuted o =>
-          if Exe.ExecCheck.agrees x o then cls ["composed-directive-not-evaluable"; "nontrivial"]
+          if ExeA.ArgCheck.agrees x o then cls ["composed-directive-not-evaluable"; "nontrivial"]
           else mism "composed-response-unevaluable"
       | _ => mism "composed-class"
       end
@@ -136,7 +122,7 @@ Definition judge_composed (kind : string) (VS : Vld.Ast.schema) (F : Vld.Ast.fea
 
 Definition check_composed (l : list sexp) : sexp :=
   match field1 "kind" l, field1 "query" l, field1 "op" l, field1 "features" l, field1 "vschema" l,
-        field1 "eschema" l, field1 "coerced" l, field1 "world" l, field1 "observed" l, field "outcome" l with
+        field1 "eschema" l, field1 "rawvars" l, field1 "world" l, field1 "observed" l, field "outcome" l with
   | Some (SSym kind), Some (SStr bs), Some (SStr op), Some fs, Some vs, Some es, Some co, Some w, Some ob,
     Some [SSym cls; SStr detail] =>
       (* --- oracle: normal return, serialisable, data or errors (as for every stream) *)
@@ -150,16 +136,16 @@ Definition check_composed (l : list sexp) : sexp :=
           if match robs with Some r => negb (data_or_errors r) | None => false end
           then v_oracle_fail "nodata-noerrors" []
           else
-            match as_list_of as_bytes fs, Vld.Decode.dec_schema vs, Exe.ExecDecode.dec_schema es,
-                  dec_coerced co, Exe.ExecDecode.dec_outcome w, dec_seen ob with
-            | Some F, Some VS, Some ES, Some VE, Some W, Some obs =>
-                if negb (Exe.ExecHyps.type_names_okb ES) then v_bad "type-name-with-zero-byte"
+            match as_list_of as_bytes fs, Vld.Decode.dec_schema vs, ExeA.ArgDecode.dec_schema es,
+                  ExeA.ArgDecode.dec_raw co, ExeA.ArgDecode.dec_outcome w, dec_seen ob with
+            | Some F, Some VS, Some ES, Some raw, Some W, Some obs =>
+                if negb (ExeA.ArgHyps.type_names_okb ES && Val.CoerceSpec.env_closed (ExeA.ArgData.s_inputs ES)) then v_bad "schema-hypotheses-do-not-hold"
                 else if negb (schemas_agree VS ES) then v_bad "schema-encodings-disagree"
-                else judge_composed kind VS F ES bs op VE W obs
+                else judge_composed kind VS F ES bs op raw W obs
             | None, _, _, _, _, _ => v_bad "features"
             | _, None, _, _, _, _ => v_bad "vschema"
             | _, _, None, _, _, _ => v_bad "eschema"
-            | _, _, _, None, _, _ => v_bad "coerced"
+            | _, _, _, None, _, _ => v_bad "rawvars"
             | _, _, _, _, None, _ => v_bad "world"
             | _, _, _, _, _, None => v_bad "observed"
             end
